@@ -232,62 +232,80 @@ def check_C14(tr, history, meta, rng, thorough=False):
     out = []
     cmax = max([op["c"] for op in history if "c" in op] + [0])
     for st, msg in el:
-        j = st.i
-        op = history[j]
-        b = st.bind_pre[op["c"]]
-        c2 = cmax + 1000
-        dup = [{"op": "connect", "c": c2},
-               {"op": "recv", "c": c2, "t": op["t"], "msg": {"type": "bind", "appid": b[0], "side": b[1]}},
-               {"op": "recv", "c": c2, "t": op["t"], "msg": msg, "fresh": "dup-%d" % j, "pick": 0, "draws": []},
-               {"op": "drop", "c": c2}]
-        h2 = history[:j + 1] + dup + history[j + 1:]
-        b_obs = _obs(h2, meta.get("mode", {}))
+        variants = [False, True] if thorough else [rng.random() < 0.35]
+        for with_restart in variants:
+            out += _c14_one(tr, history, meta, st, msg, cmax, with_restart)
+            if [f for f in out if f.known is None]:
+                return out
+    return out
+
+
+def _c14_one(tr, history, meta, st, msg, cmax, with_restart):
+    """the history with the command of step `st` duplicated on a fresh connection of the same side
+    right after it (optionally: after a server restart that both runs get) versus without"""
+    out = []
+    j = st.i
+    op = history[j]
+    b = st.bind_pre[op["c"]]
+    c2 = cmax + 1000
+    dup = [{"op": "connect", "c": c2},
+           {"op": "recv", "c": c2, "t": op["t"], "msg": {"type": "bind", "appid": b[0], "side": b[1]}},
+           {"op": "recv", "c": c2, "t": op["t"], "msg": msg, "fresh": "dup-%d" % j, "pick": 0, "draws": []},
+           {"op": "drop", "c": c2}]
+    if with_restart:
+        dead = {o["c"] for o in history[:j + 1] if o["op"] == "connect"}
+        tail, alive = [], set()
+        for o in history[j + 1:]:
+            if o["op"] == "connect":
+                alive.add(o["c"])
+            if "c" in o and o["c"] in dead and o["c"] not in alive:
+                continue      # its connection died in the restart
+            if o["op"] == "crash":
+                break
+            tail.append(o)
+        mid = [{"op": "restart", "t": op["t"]}]
+        base_h = history[:j + 1] + mid + tail
+        a = _obs(base_h, meta.get("mode", {}))
+    else:
+        mid = []
+        base_h = history
         a = tr.obs
-        orig_ans = [x for x in _answer(a["steps"][j][1], op["c"]) if not x.startswith("ack")]
-        dup_ans = [x for x in _answer(b_obs["steps"][j + 3][1], c2) if not x.startswith("ack")]
-        pre = st.pre
-        mbid = msg.get("mailbox") if msg.get("type") in ("open", "close") else None
-        if msg.get("type") == "claim" and st.post is not None:
-            row = st.post.np_by_key().get((b[0], msg["nameplate"]))
-            mbid = row[3] if row else None
-        nsides = len([s for s in (st.post.mb_sides if st.post else []) if s[0] == mbid]) if mbid else 0
-        if orig_ans != dup_ans:
-            known = "K-crowded-rejoin" if (nsides >= 3 and any("error" in x for x in dup_ans)) else None
-            out.append(Finding("C14", "a re-sent command gets the same answer", j,
-                               {"command": proto.op_line(op), "original": orig_ans, "duplicate": dup_ans}, known))
-            if known is None:
-                break
-            continue
-        # later answers and stored state
-        for i in range(j + 1, len(history)):
-            (opa, ea, da), (_, eb, db) = a["steps"][i], b_obs["steps"][i + len(dup)]
-            if ea != eb:
-                out.append(Finding("C14", "later answers do not differ after a re-sent command", i,
-                                   {"command": proto.op_line(op), "later_op": proto.op_line(opa), "without": ea, "with": eb},
-                                   _touch_known(msg, st, a, b_obs, j, len(dup))))
-                break
-            if chan_only(da) != chan_only(db):
-                x, y = chan_only(da), chan_only(db)
-                out.append(Finding("C14", "the stored channel state does not differ after a re-sent command", i,
-                                   {"command": proto.op_line(op), "without_only": [r for r in x if r not in y][:5],
-                                    "with_only": [r for r in y if r not in x][:5]},
-                                   _touch_known(msg, st, a, b_obs, j, len(dup))))
-                break
-        else:
-            # state right after the duplicate
-            da, db = a["steps"][j][2], b_obs["steps"][j + len(dup)][2]
-            if chan_only(da) != chan_only(db):
-                x, y = chan_only(da), chan_only(db)
-                out.append(Finding("C14", "the stored channel state does not differ after a re-sent command", j,
-                                   {"command": proto.op_line(op), "without_only": [r for r in x if r not in y][:5],
-                                    "with_only": [r for r in y if r not in x][:5]},
-                                   _touch_known(msg, st, a, b_obs, j, len(dup))))
-        if [f for f in out if f.known is None]:
+    off = j + 1 + len(mid)
+    dup_h = base_h[:off] + dup + base_h[off:]
+    b_obs = _obs(dup_h, meta.get("mode", {}))
+    orig_ans = [x for x in _answer(a["steps"][j][1], op["c"]) if not x.startswith("ack")]
+    dup_ans = [x for x in _answer(b_obs["steps"][off + 2][1], c2) if not x.startswith("ack")]
+    mbid = msg.get("mailbox") if msg.get("type") in ("open", "close") else None
+    if msg.get("type") == "claim" and st.post is not None:
+        row = st.post.np_by_key().get((b[0], msg["nameplate"]))
+        mbid = row[3] if row else None
+    nsides = len([s for s in (st.post.mb_sides if st.post else []) if s[0] == mbid]) if mbid else 0
+    what = proto.op_line(op) + (" (duplicate sent after a server restart)" if with_restart else "")
+    if orig_ans != dup_ans:
+        known = "K-crowded-rejoin" if (nsides >= 3 and any("error" in x for x in dup_ans)) else None
+        out.append(Finding("C14", "a re-sent command gets the same answer", j,
+                           {"command": what, "original": orig_ans, "duplicate": dup_ans}, known))
+        return out
+    k = len(dup)
+    # the state right after the duplicate, then every later answer and state
+    for i in range(off - 1, len(base_h)):
+        (opa, ea, da), (_, eb, db) = a["steps"][i], b_obs["steps"][i + k]
+        if i >= off and ea != eb:
+            out.append(Finding("C14", "later answers do not differ after a re-sent command", i,
+                               {"command": what, "later_op": proto.op_line(opa), "without": ea, "with": eb},
+                               _touch_known(msg, a, b_obs, off - 1, k)))
+            break
+        if da is not None and db is not None and chan_only(da) != chan_only(db):
+            x, y = chan_only(da), chan_only(db)
+            out.append(Finding("C14", "the stored channel state does not differ after a re-sent command", i,
+                               {"command": what, "without_only": [r for r in x if r not in y][:5],
+                                "with_only": [r for r in y if r not in x][:5]},
+                               _touch_known(msg, a, b_obs, off - 1, k)))
             break
     return out
 
 
-def _touch_known(msg, st, a, b_obs, j, k):
+def _touch_known(msg, a, b_obs, j, k):
     """K-close-touch: right after a duplicated close of a surviving mailbox the only difference
     is that mailbox's `updated` (and what follows from it)"""
     if msg.get("type") != "close":
